@@ -33,7 +33,9 @@ def run(R):
     for name, s in seeds[:6] + seeds[-3:]:
         ext = cc.extended_secret(s)
         evs.append(({"op": "ed_extended_to_public", "ext": ext}, ("ext2pub", name)))
-    lens = list(range(0, 301)) if thorough else [0, 1, 31, 32, 63, 64, 95, 96, 111, 112, 127, 128, 300]
+    # quick: the SHA-512 padding classes of both hashes of a signature: the nonce hash absorbs 32 + n bytes, the challenge hash 64 + n;
+    # total length mod 128 in {111 (length field fits exactly), 112 (spill block), 127, 0, 1} for either of them, + small / long
+    lens = list(range(0, 301)) if thorough else sorted({0, 1, 31, 32, 300} | {t - pre + k * 128 for pre in (32, 64) for t in (111, 112, 127, 128, 129) for k in (0, 1)})
     s0 = seeds[0][1]
     stream = rb("msg", 400)
     for n in lens:
